@@ -3,14 +3,7 @@
 manifest stays schema-valid while checks are added)."""
 import json
 
-CHECKS = {
-    # id: (level, technique, text, note, design_ref)
-    "C19": ("model_checking",
-            "bounded exhaustive enumeration of (patch, injected fault, position, layout prefix) cases; the generator is the position model; every case replayed against patch.Parse and the CLI",
-            "Every patch in the bounded universe (1..3 changes x 40 fault shapes x every comment/blank/declaration prefix up to length 2 (thorough 4) x indentation x API/-p/stdin) is run; the diagnostic must contain file:line:col computed independently by the generator, exit status non-zero, target tree snapshot-identical. Coverage statement, not a sample.",
-            "trusts go/token only for nothing: positions are computed by the generator by counting lines/columns of the text it builds; CLI through the overlay driver, violations re-run against the real binary",
-            "DESIGN.md §5 C19"),
-}
+CHECKS = {k: tuple(v) for k, v in json.load(open("/verif/manifest_checks.json")).items()}
 
 NOT_YET = {
 }
